@@ -405,7 +405,7 @@ impl TypeContext {
         param_ty: &hir::Type<P>,
         method: &hir::Method,
     ) {
-        let linked = match &param_ty {
+        let linked = match param_ty.unwrap_option() {
             hir::Type::Opaque(p) => p.link_lifetimes(self),
             hir::Type::Struct(p) => p.link_lifetimes(self),
             _ => return,
